@@ -1336,6 +1336,20 @@ def gen_case_program(rng):
             # match may follow; greedy clause bodies are therefore generated with a consuming statement behind the marker)
             mark = [("yield", ycodes[i])] if yields else [("hook", hooks[i]), ("match", ("lit", b";"))]
             cls.append((r.choice([None, None, 1, 1, 2]), [r.choice([("re", ("plus", ("cls", "\\w"))), ("re", ("plus", ("set", [(97, 100)], False))), pat(), ("lit", lit(2)), ("lit", lit(3))])], mark))
+        if not yields and r.random() < 0.5:
+            # patterns of one fixed length: no match can be extended, so action-only clauses are safe from the finding above and
+            # the priorities decide between a literal and a class pattern that both match it (some combinations are ties and
+            # must be rejected)
+            cls = []
+            c0, c1 = r.choice(b"abcd"), r.choice(b"abcd")
+            pts = [("lit", bytes([c0, c1])), r.choice([("re", ("seq", [("c", c0), ("set", [(97, 100)], False)])), ("re", ("seq", [("set", [(97, 100)], False), ("c", c1)]))])]
+            if r.random() < 0.4:
+                pts.append(r.choice([("lit", lit(2)), ("re", ("seq", [("set", [(97, 100)], False), ("c", r.choice(AB))]))]))
+            r.shuffle(pts)
+            for i, pt in enumerate(pts):
+                bd = r.choice([[("hook", hooks[i])], [("assign", "n0", ("num", i + 1))], [("assign", "n0", ("num", i + 1)), ("hook", hooks[i])],
+                               [("hook", hooks[i]), ("match", ("lit", b";"))], [("hook", hooks[i]), ("match", ("lit", b";"))], []])
+                cls.append((r.choice([None, None, 1, 2, 3]), [pt], bd))
         inner = ("gcase", cls)
         if yields:
             body.append(("loop", None, [inner]))
@@ -1440,3 +1454,134 @@ def gen_loop_shape(rng):
     stmts = ([("match", ("lit", b"q"))] if r.random() < 0.5 else []) + [("loop", None, body), ("hook", "h2"), ("match", ("lit", b"\n"))]
     p = {"outs": outs, "hooks": ["h0", "h1", "h2"], "finish_codes": [], "yield_codes": [], "body": stmts}
     return p, pr_prog(p), []
+
+
+# ---------------------------------------------------------------------------------------------------------------
+# Feature programs for the C-level correspondences (C05, C06): one small program per code-generation path that random
+# generation reaches only rarely - each is meant to be compiled under several option sets (FEATURE_OPTION_SETS)
+FEATURE_PROGRAMS = [
+    ("feat-empty-literal", r'''out str[8] s;
+out str[6] t = "";
+hook hk;
+parser {
+    s += /[a-z]+/;
+    ",";
+    s = "";
+    hk();
+    t = "ab";
+    ";";
+    t = "";
+    hk();
+    s += /[a-z]*/;
+    "\n";
+}
+'''),
+    ("feat-mixed-else", r'''out str[16] v;
+hook hk;
+parser {
+    "v=";
+    v += /(\w|[^;])+/;
+    ";";
+    hk();
+    /(a|.)b/;
+    /[^,]|x/;
+    hk();
+    "\n";
+}
+'''),
+    ("feat-else-in-case", r'''out int n = 0;
+out str[6] s;
+hook hk;
+parser {
+    loop {
+        case {
+            "ab", /[0-9]x/ -> { n = [n + 1]; }
+            /[^a0-9;]/ -> { n = [n + 2]; hk(); }
+            ";" -> { break; }
+        }
+    }
+    s += /[^\n]*/;
+    "\n";
+    hk();
+}
+'''),
+    ("feat-ranges", r'''out int n = 0;
+out str[10] s;
+hook hk;
+parser {
+    s += /[a-cx-y0-46]+/;
+    "|";
+    hk();
+    foreach {
+        /[0-9a-fA-F]+/;
+    } do {
+        n = [n + 1];
+    }
+    ".";
+    hk();
+}
+'''),
+    ("feat-casei-wait", r'''out bool f = false;
+out str[12] s;
+hook hk;
+parser {
+    wait "Key:"i;
+    f = true;
+    optional { "_"; }
+    s += /[^\r\n;_]+/;
+    ";";
+    hk();
+    wait /\r?\n/;
+    s = "done";
+    hk();
+}
+'''),
+    ("feat-try-overflow", r'''out str[4] s;
+out str[5] t = "zz";
+out int n = 0;
+hook hk;
+parser {
+    try {
+        s += /\w+/;
+        ",";
+    } catch (outofspace) {
+        n = 9;
+        s = "";
+        hk();
+        wait ",";
+    }
+    t += "q";
+    t = "";
+    t += /\d*/;
+    ";";
+    hk();
+}
+'''),
+]
+# more than 256 emitted states at -O0 (unreachable ones are numbered too), fewer than 256 reachable: the width of the state field
+FEATURE_PROGRAMS.append(("feat-many-states", "out int n = 0;\nhook tick;\nmacro item() {\n    case {\n        \"a\" -> { \"1\"; }\n        \"b\" -> { }\n    }\n"
+                         "    n = [n + 1];\n    tick();\n}\nparser {\n" + "    item();\n" * 60 + "    \"END\";\n}\n"))
+FEATURE_OPTION_SETS = [["-O0"], ["-O1"], ["-O2"], ["-O3"], ["-O3", "-fno-simplify-else-conditions"], ["-O1", "-fuse-delete-for-empty-string"],
+                       ["-O3", "-fno-use-delete-for-empty-string"], ["-O0", "-fcollapse-transition-ranges"], ["-O2", "--collapsed-range-length", "1"]]
+
+
+def gen_retry_handler(rng):
+    """source of a program whose out-of-space handler makes room in the SAME string and lets the enclosing loop retry the
+    byte that did not fit - terminating for every data state, but only because the handler really empties the string
+    (C04: concrete runs under every string representation, with a wall-clock guard)"""
+    n = rng.randint(2, 6)
+    unterm = rng.random() < 0.3
+    clear = rng.choice(["delete s;", "delete s;", 's = "";'])
+    extra = rng.choice(["", "n = [n + 1];", "hk();"])
+    k = rng.choice(["word-loop", "char-loop", "foreach", "case"])
+    decl = "out %sstr[%d] s;\nout int n = 0;\nhook hk;\n" % ("unterminated " if unterm else "", n)
+    h = "catch (outofspace) { %s %s }" % (clear, extra)
+    if k == "word-loop":
+        body = 'loop { try { s += /\\w+/; " "; } %s }' % h
+    elif k == "char-loop":
+        body = 'loop { try { s += /[a-z0-9]/; } %s }' % h
+    elif k == "foreach":
+        body = 'loop { try { foreach { /\\w+/; } do { s += [$last]; } " "; } %s }' % h
+    else:
+        body = 'loop { try { case { /[a-z]/ -> { s += "x"; } /[0-9]/ -> { s += "12"; } } } %s }' % h
+    return decl + "parser {\n    " + body + "\n}\n"
